@@ -580,6 +580,49 @@ func c01PathCtx(c *Ctx) {
 					}
 				}
 			}
+			if !ok {
+				// `elemCtx := func(i int) context.Context { return WithFieldContext(ctx, &FieldContext{Index: &i, …}) }`: the
+				// index cell is the parameter of a function literal — fresh for every call
+				for _, cl := range an.WithClosures(fn) {
+					if cl == fn {
+						continue
+					}
+					for _, call := range an.CallsIn(cl, func(_ ssa.CallInstruction, ci an.CalleeInfo) bool {
+						return ci.FullName() == pkgGraphql+".WithFieldContext"
+					}) {
+						if call.Parent() != cl {
+							continue
+						}
+						for _, d := range an.Defs(call.Common().Args[1]) {
+							al, isAl := d.(*ssa.Alloc)
+							if !isAl {
+								continue
+							}
+							for _, r := range an.Referrers(al) {
+								fa, isFA := r.(*ssa.FieldAddr)
+								if !isFA || fieldNameOf(fa) != "Index" {
+									continue
+								}
+								for _, r2 := range an.Referrers(fa) {
+									st, isSt := r2.(*ssa.Store)
+									if !isSt {
+										continue
+									}
+									cell, isCell := st.Val.(*ssa.Alloc)
+									if !isCell || cell.Parent() != cl {
+										continue
+									}
+									for _, cs := range an.CellStores(cell) {
+										if prm, isP := cs.Val.(*ssa.Parameter); isP && prm.Parent() == cl && len(an.CellStores(cell)) == 1 {
+											ok = true
+										}
+									}
+								}
+							}
+						}
+					}
+				}
+			}
 			c.R.Check(ok, key, c.pos(fn.Pos()), "FieldContext.Index = &i of the iteration", "list elements do not run under a FieldContext carrying their own index: errors inside elements lose the index from their path (or all share one index variable)")
 		}
 	}
